@@ -61,7 +61,7 @@ CHECKS = {
   'C07': ('B', 'model_checking',
           'explicit-state BFS by history replay over the real WatermarkPoolSink with stub connections, incl. pending opens and bounded preemption',
           'For 14 (quick) / 24 (thorough) (min, max, queue) configurations every history of request / completion / queued-timeout / '
-          'connection-death / open-outcome operations up to depth 12/14 is executed on the real pool; connection bound, single lending, FIFO, '
+          'connection-death / open-outcome operations up to depth 12/18 is executed on the real pool; connection bound, single lending, FIFO, '
           'work conservation, max-waiters band, retention after traffic stops, close-fails-waiters-once and a capacity probe (burst of '
           'max requests) are checked in every state.',
           'stub connections fail a request sent on a closed connection, as both transports do; behaviour of requests arriving after the '
